@@ -288,6 +288,12 @@ def gen_kwargs(ch: Choices, multipart_possible: bool):
     elif h == "override_client":
         headers["X-Client"] = "call-level"
     kw["headers"] = headers or None
+    # per-call headers in every form httpx accepts for its headers= argument
+    kw["headers_shape"] = ch.weighted("w.kw.hshape", [("dict", 5), ("httpx.Headers", 1), ("pairs", 1), ("mappingproxy", 1)])
+    if "Content-Type" in headers and kw["headers_shape"] == "httpx.Headers":
+        # httpx.Headers lower-cases names; a Content-Type override spelled in another case than the client's own is sent next to
+        # it (both values) - kept out of the asserted stream, see DESIGN appendix A
+        kw["headers_shape"] = "dict"
     if ch.chance("w.kw.timeout", 1, 4):
         kw["timeout"] = ch.pick("w.kw.tv", [1.5, 30.0, 0.25])
     if ch.chance("w.kw.redir", 1, 6):
@@ -335,7 +341,8 @@ def gen_call(ctx: WorkCtx, allow_uploads=True):
         # GraphQL variables named like the generated method's own locals
         spec["args"] = {"query": ("str", ch.pick("w.sq", ["whale", "", "{ ping }"])),
                         "variables": ch.pick("w.sv", [("unset",), ("none",), ("int", 3)]),
-                        "data": ch.pick("w.sd", [("unset",), ("str", "payload"), ("none",)])}
+                        "data": ch.pick("w.sd", [("unset",), ("str", "payload"), ("none",)]),
+                        "response": ch.pick("w.sr", [("unset",), ("str", "r"), ("none",)])}
     elif via == "create_item":
         spec["args"] = {"input": gen_model(ctx, 2)}
     else:
@@ -497,10 +504,28 @@ def build_client(variant, own_transport: bool, server: SimServer, yield_point=No
     return client, N
 
 
+def _scribble(o, depth=0):
+    """The caller owns what a call handed it and may edit it in place; nothing it does to it may show in what a later call
+    returns (a client that hands out cached / shared objects is caught by this)."""
+    if depth > 6:
+        return
+    if isinstance(o, dict):
+        for v in list(o.values()):
+            _scribble(v, depth + 1)
+        o["__edited_by_caller__"] = True
+    elif isinstance(o, list):
+        for v in list(o):
+            _scribble(v, depth + 1)
+        o.append("__edited_by_caller__")
+
+
 def _outcome_value(v):
     if hasattr(v, "model_dump"):
         return {"model": type(v).__name__, "value": v.model_dump(mode="json", by_alias=True)}
-    return v
+    import copy
+    rec = copy.deepcopy(v)
+    _scribble(v)
+    return rec
 
 
 def _exc_outcome(e: BaseException):
@@ -513,8 +538,13 @@ def _exc_outcome(e: BaseException):
         info = {"has_response": isinstance(getattr(e, "response", None), httpx.Response),
                 "resp_status": getattr(getattr(e, "response", None), "status_code", None)}
     elif name == "GraphQLClientGraphQLMultiError":
-        info = {"errors": [{"message": x.message, "locations": x.locations, "path": x.path, "extensions": x.extensions,
-                            "original": x.original} for x in e.errors], "data": e.data}
+        import copy
+        info = copy.deepcopy({"errors": [{"message": x.message, "locations": x.locations, "path": x.path, "extensions": x.extensions,
+                                          "original": x.original} for x in e.errors], "data": e.data})
+        for x in e.errors:
+            for part in (x.original, x.extensions, x.path, x.locations):
+                _scribble(part)
+        _scribble(e.data)
     elif name == "ValidationError":
         info = {"errors": len(e.errors()) if hasattr(e, "errors") else None}
     else:
@@ -563,6 +593,14 @@ def run_workload(ch: Choices, variant: str, callers: List[List[dict]], uploads_s
         else:
             headers = dict(skw.get("headers") or {})
             headers["X-Sim-Nonce"] = rec.nonce
+            shape = skw.get("headers_shape", "dict")
+            if shape == "httpx.Headers":
+                headers = httpx.Headers(headers)
+            elif shape == "pairs":
+                headers = list(headers.items())
+            elif shape == "mappingproxy":
+                import types
+                headers = types.MappingProxyType(headers)
         kw["headers"] = headers
         for k in ("timeout", "follow_redirects", "extensions"):
             if k in skw:
